@@ -4,10 +4,14 @@ import (
 	"fmt"
 	"reflect"
 	"sort"
+	"strings"
 	"testing"
+
+	historypb "go.temporal.io/api/history/v1"
 
 	"go.temporal.io/server/common/log"
 	"google.golang.org/protobuf/proto"
+	"google.golang.org/protobuf/reflect/protoreflect"
 
 	"github.com/temporalio/s2s-proxy/interceptor"
 )
@@ -104,6 +108,49 @@ func TestC12(t *testing.T) {
 				e.Violation(map[string]any{"what": fmt.Sprintf("namespace name at %s (root %s) left untranslated (%s)", describePath(g, p), g.Types[p.Root].Go, obs), "ops": []string{op}})
 			} else if cmp != "equal" {
 				e.Violation(map[string]any{"what": fmt.Sprintf("translation of a message populated along %s differs from the reference translation (%s): something else changed", describePath(g, p), cmp), "ops": []string{op}})
+			}
+			// batch context (blob paths): the same event among other events of its blob — events whose attributes have a
+			// namespace field that is empty / identity-mapped / unmapped / mapped, and plain events, before and after it
+			if hasBlobStep(p) && obs == "translated" {
+				modes := []int{1 + e.Rng.IntN(3)}
+				if e.Thorough() {
+					modes = []int{1, 2, 3}
+				}
+				for _, mode := range modes {
+					m, err := buildAlong(g, p, func(f reflect.Value) { f.SetString("local-ns") })
+					if err != nil {
+						continue
+					}
+					unset, set := padEvents(func(fd protoreflect.FieldDescriptor) bool {
+						return fd.Kind() == protoreflect.StringKind && !fd.IsList() && (fd.Name() == "namespace" || strings.HasSuffix(string(fd.Name()), "_namespace"))
+					}, func(attrs protoreflect.Message, fd protoreflect.FieldDescriptor) {
+						attrs.Set(fd, protoreflect.ValueOfString([]string{"shared", "unmapped", "local-ns", "remote-ns"}[e.Rng.IntN(4)]))
+					})
+					pick := func(l []*historypb.HistoryEvent) *historypb.HistoryEvent { return l[e.Rng.IntN(len(l))] }
+					mapEventBlobs(m.ProtoReflect(), func(evs []*historypb.HistoryEvent) []*historypb.HistoryEvent {
+						switch mode {
+						case 1:
+							return append([]*historypb.HistoryEvent{plainPadEvent(90), pick(unset), pick(set)}, evs...)
+						case 2:
+							return append(append([]*historypb.HistoryEvent{}, evs...), pick(set), pick(unset), plainPadEvent(91))
+						default:
+							return append(append([]*historypb.HistoryEvent{pick(set), plainPadEvent(90)}, evs...), plainPadEvent(91), pick(set))
+						}
+					})
+					cmp, err := translateAndCompare(tr, m, true, ro)
+					obs2 := "missed"
+					if err != nil {
+						obs2 = "error"
+					} else if leaf, lerr := readLeaf(g, p, m); lerr == nil && leaf.Kind() == reflect.String && leaf.String() == "remote-ns" {
+						obs2 = "translated"
+					}
+					e.Emit(op, obs2)
+					e.Evals++
+					e.Count(fmt.Sprintf("batch_context_%d_%s", mode, obs2))
+					if obs2 != "translated" || cmp != "equal" {
+						e.Violation(map[string]any{"what": fmt.Sprintf("namespace name at %s (root %s) inside a history batch of several events (arrangement %d): %s, compared with the reference translation: %s", describePath(g, p), g.Types[p.Root].Go, mode, obs2, cmp), "ops": []string{op}})
+					}
+				}
 			}
 		}
 	}
